@@ -134,6 +134,9 @@ def check_history(line, toks):
         elif p[0] == 'c':
             objs[int(p[2])] = dict(st)
             cov.append('clone:%s' % ('fin' if st['fin'] else 'open'))
+        elif p[0] == 'cf':
+            objs[ob] = dict(objs[int(p[2])])
+            cov.append('clone_from:%s' % ('fin' if objs[ob]['fin'] else 'open'))
         elif p[0] == 'ob':
             t = tok()
             if t != str(outlen):
